@@ -114,7 +114,7 @@ func judgeBatch(cs *BatchCase, o *BatchObs) []scen.Finding {
 			}
 			continue
 		}
-		if s.ValOf != i {
+		if s.ValOf != i && !(s.ValNil && i < len(cs.Items) && cs.Items[i].Nil && !failed[i]) {
 			add("C09", "slot-not-real-outcome:"+mode+":"+cc, "slot %d is a non-error result that is not a value item %d's execution produced (valOf=%d att=%d nil=%v)", i, i, s.ValOf, s.ValAtt, s.ValNil)
 		}
 	}
@@ -164,7 +164,7 @@ func judgeBatch(cs *BatchCase, o *BatchObs) []scen.Finding {
 				s := o.Slots[i]
 				switch {
 				case !failed[i]:
-					if s.IsError || s.ValOf != i || s.ValAtt != cs.Items[i].K || s.ValFB {
+					if !ownSuccess(cs, s, i) || (!cs.Items[i].Nil && s.ValAtt != cs.Items[i].K) {
 						if !(s.ValOf >= 0 && s.ValOf != i) { // foreign values are C06's
 							add("C07", "slot-value:"+cc, "item %d succeeded at attempt %d but its slot is %+v", i, cs.Items[i].K, s)
 						}
@@ -217,7 +217,7 @@ func judgeBatch(cs *BatchCase, o *BatchObs) []scen.Finding {
 			ok := true
 			switch {
 			case !failed[i]:
-				ok = !s.IsError && s.ValOf == i && !s.ValFB
+				ok = ownSuccess(cs, s, i)
 			case cs.FB && !cs.Items[i].FBE:
 				ok = !s.IsError && s.ValOf == i && s.ValFB
 			case cs.FB:
@@ -229,6 +229,21 @@ func judgeBatch(cs *BatchCase, o *BatchObs) []scen.Finding {
 				add("C06", "slot-not-own-outcome:stop:"+cc, "stop mode: item %d was processed completely (%d attempts, first success at %d), but result %d is %+v — not the outcome of processing that item", i, o.Attempts[i], cs.Items[i].K, i, s)
 			}
 		}
+	}
+	if cancelled && !cs.Lean && o.PostCalls > 0 {
+		// an item whose exec returned a success before / despite the cancellation keeps that outcome
+		for _, e := range o.Events {
+			if e.Kind == "exec-ret" && e.OK && e.Item >= 0 && e.Item < len(o.Slots) && e.Item < n {
+				if s := o.Slots[e.Item]; !ownSuccess(cs, s, e.Item) && !(s.ValOf >= 0 && s.ValOf != e.Item) {
+					add("C06", "slot-not-own-outcome:cancel:"+cc, "item %d was executed and its exec returned a success (attempt %d, nil value: %v); after the cancellation its slot is %+v — not the outcome of processing that item", e.Item, e.Attempt, cs.Items[e.Item].Nil, s)
+					break
+				}
+			}
+		}
+	}
+	if len(o.KeptChanged) > 0 {
+		add("C06", "earlier-results-overwritten:"+cc, "the result list handed to post in an earlier run of the same node (and kept by the caller) was modified by the later run: %s", o.KeptChanged[0])
+		add("C07", "earlier-results-overwritten:"+cc, "the result list of an earlier run was modified by a later run of the same node: %s", o.KeptChanged[0])
 	}
 	// ---------------------------------------------------------------- C08: the limit
 	if !cs.Lean {
@@ -349,6 +364,17 @@ func judgeBatch(cs *BatchCase, o *BatchObs) []scen.Finding {
 		}
 	}
 	return fs
+}
+
+// ownSuccess reports whether slot s is the successful outcome item i's own execution produced.
+func ownSuccess(cs *BatchCase, s Slot, i int) bool {
+	if s.IsError || s.ValFB {
+		return false
+	}
+	if i < len(cs.Items) && cs.Items[i].Nil {
+		return s.ValNil
+	}
+	return s.ValOf == i
 }
 
 func slotOf(o *BatchObs, i int) Slot {
